@@ -3,6 +3,8 @@ from pathlib import Path
 sys.path.insert(0, str(Path(__file__).resolve().parent.parent / "tools" / "extract"))
 import c27_typecodes  # noqa: E402
 
+_T = "SymVerif.C27."
+_S = "SymVerif.Sets."
 SPEC = dict(
     id="C27",
     level="proof",
@@ -10,11 +12,69 @@ SPEC = dict(
     driver="C27",
     harness="c27.cpp",
     translators=[c27_typecodes.fn],
-    theorems=[
-        "SymVerif.C27.ivContains_sound",
+    run_timeout=600,
+    theorems=[_T + n for n in [
+        "contains_sound", "union_mem", "inter_mem", "compl_mem", "nunion_mem", "ninter_mem", "eval_sound",
+        "sup_upper", "inf_lower", "sup_least_iv", "inf_greatest_iv",
+        "interior_mem", "closure_mem", "boundary_iv", "boundary_iv_topological", "interior_iv", "closure_iv",
+        "D13_orig_value", "D13_orig_wrong", "D14_orig_value", "D14_orig_wrong", "D14_fixed_value",
+        "N5_orig_wrong", "N6_orig_wrong", "N3_orig_value", "N3_fixed_value",
+    ]] + [_S + n for n in [
+        "ops_sound", "top_sound", "muStep_sound", "miStep_sound", "mcStep_sound", "nuStep_sound", "niStep_sound",
+        "complHelper_ok", "contains_iff", "ivInterIv_mem", "ivUnionIv_ok", "ivComplPieces_mem", "fsUnionIv_ok",
+        "fsComplIv_ok", "fsComplLoop_spec", "ivInterInts_mem", "unionLoop_ok", "interLoop_ok",
+        "SetE.beq'_sound",
+    ]],
+    partial=[
+        "boundary of a Union = topological boundary is NOT proved (kept as def C27_boundary_full); proved: boundary "
+        "of an Interval is exactly its set of topological boundary points, interior = s \\ boundary and "
+        "closure = s u boundary on points for every set (interior_mem, closure_mem), boundary of number sets by "
+        "definition; the Union case is covered by the harness oracle only",
+        "sup/inf: upper/lower bound proved for every set (sup_upper, inf_lower); leastness proved for intervals only",
+        "termination is not part of the theorems (partial correctness over call depth n); the original code has "
+        "call chains that never return (findings N1, N2, N11, N12)",
+        "Complement::set_union, Complement::set_complement, Intersection::set_complement are known to be wrong "
+        "(N7-N9) and are not modelled: the model answers Err.defect there and the theorems exclude those results",
     ],
-    run_timeout=240,
-    rule="",
-    not_covered=[],
-    assumptions=[],
+    rule="expression trees over interval(a,b,lo,ro) (rational or infinite end points), finiteset({rationals}), "
+         "EmptySet, UniversalSet, Reals, Rationals, Integers, Naturals, Naturals0 with the free functions "
+         "set_union/set_intersection/set_complement, the methods set_union/set_intersection/set_complement and "
+         "boundary/interior/closure; verbs eval (canonical dump), contains <point>, sup, inf. distinct = distinct op "
+         "lines, non-trivial = all. tags: <verb>-<family>; families ivfs[-inf]-d1..d3 (interval / finite-set trees of "
+         "depth <= 3), ivfs-topo (with boundary/interior/closure), num-union (unions with number sets at any depth), "
+         "num-d1 (one operation on atoms including number sets: creates Complement / Intersection objects), num-topo, "
+         "fixed-* (the minimal inputs of the confirmed defects). Oracle per expression node: reference membership "
+         "vector over all break points, neighbouring integers and midpoints vs (a) the structure of the result and "
+         "(b) contains() on the result.",
+    not_covered=[
+        "Complexes, ConditionSet, ImageSet, symbolic or floating-point end points / elements (contains() may then "
+        "return an unevaluated Contains)",
+        "irrational points: Reals and Rationals have the same rational points (the interval theorems are order-"
+        "theoretic and do not depend on the point being rational)",
+        "Complement / Intersection objects as operands of further set operations (known wrong or non-terminating "
+        "in the C++; reproducers in corpus/C27/known.ops)",
+        "two different container elements with the same hash (the C++ then orders by __cmp__)",
+        "infinite elements inside a FiniteSet as points (boundary([a, oo)) = {a, oo}); they are carried along but "
+        "`mem` only speaks about rational points",
+        "is_subset / is_superset / is_proper_* (derived from set_intersection + eq)",
+    ],
+    assumptions=[
+        "min/max/eq/Eq/ceiling/floor of symengine on Integer, Rational, Infty are exact (checked by the "
+        "correspondence on every generated case)",
+        "RCPBasicKeyLess orders by hash() first; Integer/Rational/Infty/set hashes as mirrored (re-checked against "
+        "the source text by tools/extract/c27_typecodes.py on every run)",
+    ],
+    level_text="Machine-checked proof (Lean 4 kernel + Mathlib order theory) that every set_union / "
+               "set_intersection / set_complement method and the free n-ary functions of symengine/sets.cpp, "
+               "modelled branch by branch including the hash-ordered container iteration, return sets whose "
+               "rational points are exactly the boolean combination of the operands' points, for all operands in "
+               "the fragment, all call depths and all rational points; contains() agrees with that denotation; sup / "
+               "inf are bounds; interior / closure are s \\ boundary and s u boundary; the boundary of an interval is "
+               "its topological boundary.",
+    level_note="partial correctness (no termination claim); boundary of a Union and leastness of sup for unions are "
+               "tested by the oracle, not proved; three C++ branches known to be wrong are excluded (Err.defect)",
+    technique="Lean 4 executable model with modelled hash order + fuel-indexed mutual recursion; soundness by "
+              "induction on the call depth with one non-recursive step lemma per class; grind/omega for the interval "
+              "and integer-range case analyses; correspondence of canonical dumps with the real library; independent "
+              "grid-membership oracle in the harness",
 )
